@@ -411,6 +411,25 @@ def run_suite(run_, names, tier, procs=16, keep=None):
                 run_.ob(oid, st, be, secs, detail=detail, witness=wit, text=text)
 
 
+def operand_dtypes(run_):
+    """BOUNDED native stand-in (Engines B and D compute over the reals and cannot see dtypes): `M @ x` and `x @ M` for operands of integer, boolean and
+    float32 dtype equal the dense float64 product, for one instance per class and its transpose / inverse / square root."""
+    import subprocess
+    script = os.path.join(core.VERIF, "replays", "c11_dtype.py")
+    try:
+        p = subprocess.run([core.NATIVE_PY, script, "operands"], capture_output=True, text=True, timeout=300, env=dict(os.environ, PYTHONPATH=core.SRC))
+        res = json.loads(p.stdout.strip().splitlines()[-1])
+    except Exception as e:  # noqa: BLE001
+        run_.ob("matrices/products-independent-of-operand-dtype", core.ERROR, "native-exec", detail=f"{type(e).__name__}: {e}", klass="bounded")
+        return
+    for name, diffs in res.items():
+        run_.ob(f"matrices.{name}/products-independent-of-operand-dtype", core.DISCHARGED if not diffs else core.FAILED, "native-exec", klass="bounded",
+                detail="" if not diffs else "; ".join(f"{k}: {v}" for k, v in diffs.items())[:600], witness=diffs or None,
+                replay=(lambda w: {"script": "c11_dtype.py", "args": ["operands-check"], "timeout": 300}) if diffs else None,
+                text="bounded (one instance per class): products with int64 / bool / float32 operands equal the dense float64 product")
+    run_.bounded.append({"id": "C10/matrices.*/products-independent-of-operand-dtype", "detail": "one instance per class and its transpose / inverse / sqrt; int64, bool, float32 operands"})
+
+
 def log_space_obligations(run_):
     """`log_abs_det` is documented as the logarithm of |det|: its value must be finite whenever that logarithm is, for every size
     -- so no implementation may form the determinant (or the product of a diagonal) itself, which over/underflows in double
@@ -457,6 +476,7 @@ def run(run_, tier):
     run_suite(run_, names, tier)
     run_.notes.append(f"factories: {names}")
     log_space_obligations(run_)
+    operand_dtypes(run_)
     # Engine D: the composite classes (and ring-level leaf classes) for ALL dimensions, operands = contract stubs
     c10_generic.run_generic(run_, tier)
     c10_generic.lean_finish(run_, lean)
